@@ -955,7 +955,11 @@ class Encoder:
                 rv, m2, rc = self.encode(callee, [a for (_, a) in args], m, r, prefix=where.split(":")[0][:20] + ">")
             finally:
                 self.depth -= 1
-            if ins.res is not None and rv is not None:
+            if z3.is_false(z3.simplify(rc)):
+                return m2, True          # no path returns from the callee: the continuation is unreachable
+            if ins.res is not None:
+                if rv is None:
+                    raise EncError("callee %s returns no value at %s" % (c, where))
                 env[ins.res] = rv
             return m2, False
         ext = getattr(self, "externals", {}).get(c)
